@@ -196,11 +196,19 @@ type vxCRL struct{ Serials []string }
 
 const vxCRLPath = "crls/default"
 
+var vxAfterCollect func()
+
 func vxBuildCRLs(sc *storageContext, forceNew bool) ([]string, error) {
 	vxBuilds++
 	unassigned, byIssuer, err := getLocalRevokedCertEntries(sc, vxIssuers, false)
 	if err != nil {
 		return nil, err
+	}
+	// scheduling point: this build has collected the revocation records; another request may run now (it is held at
+	// the builder's lock until this build is finished)
+	if f := vxAfterCollect; f != nil {
+		vxAfterCollect = nil
+		f()
 	}
 	crl := vxCRL{}
 	add := func(rs []pkix.RevokedCertificate) {
@@ -347,6 +355,37 @@ func VxRevokeAndServe() {
 	before := len(st.log)
 	r3, e3 := revokeCert(sc, cfg, leaf)
 	vxAssert("revocation is idempotent", vxRevoked(r3, e3) && len(st.log) == before)
+}
+
+// A revocation arriving while ANOTHER request's CRL build is under way (issuer import, configuration change, tidy or
+// the periodic rebuild - none of them holds the revocation lock): that build has already collected the revocation
+// records when the revocation writes its own (second logical thread, started right after the collection; its rebuild
+// is held at the builder's lock and resumed when the first build is finished). With auto-rebuild off the revocation
+// is reported successful only after a CRL that lists its serial has been written.
+func VxRevokeWhileAnotherBuildRuns() {
+	sc, st, leaf, _ := vxWorld()
+	cfg := &crlConfig{AutoRebuild: false, EnableDelta: vxBool("enable_delta")}
+	st.failAt = -1
+	var r1 *logical.Response
+	var e1 error
+	done := false
+	vxAfterCollect = func() {
+		vxSpawn(func() {
+			r1, e1 = revokeCert(sc, cfg, leaf)
+			done = true
+		})
+	}
+	_, berr := sc.Backend.crlBuilder.rebuild(sc, vxBool("the other build is a forced-new build"))
+	vxAssert("the other build succeeds", berr == nil)
+	vxAssert("the revocation ran to completion once the other build released the builder", done)
+	vxReach("revoke: raced by another CRL build")
+	if vxRevoked(r1, e1) {
+		vxReach("revoke: reported successful behind another build")
+		serials, served := vxServedCRL(sc)
+		vxAssert("the CRL endpoint answers", served)
+		vxAssert("auto_rebuild off: a revocation reported successful while another build was running is on the CRL served next", vxHas(serials, "1c:2d"))
+		vxAssert("earlier revocations stay on the CRL", vxHas(serials, "0a:0b"))
+	}
 }
 
 // An issuer's own certificate cannot be revoked through the leaf path.
